@@ -16,9 +16,13 @@ def keep_vars(ent):
     return [o["n"] for o in ent["objs"] if o["q"] == "variable"]
 
 
-def design_record(ent, ob, maxdepth, clk="clk"):
+BUDGET = {"quick": 4000, "thorough": 40000}
+
+
+def design_record(ent, ob, maxdepth, clk="clk", budget=4000):
     return {"id": ent["name"], "adl": ent, "ast": ob["ast"], "top": ent["name"].lower(), "keep": keep_vars(ent),
-            "inputs": ADL.input_space(ent, clk), "clk": clk, "maxdepth": maxdepth}
+            "inputs": ADL.input_space(ent, clk), "clk": clk, "maxdepth": maxdepth, "budget": budget,
+            "async": 1 if any(c["reset"]["k"] != "none" and c["reset"]["async"] for c in ent["ctxs"]) else 0}
 
 
 def extract_trace(out):
@@ -46,12 +50,15 @@ def run(prop, tier, ents, maxdepth_of, scratch, timeout, level="model_checking",
         if ob is None:
             V.machinery_error(f"no observation for {e['name']}")
             continue
+        if ob["outcome"] == "crash":
+            V.machinery_error(f"generated module for {e['name']} could not be imported: {ob['error']['msg']}")
+            continue
         if ob["outcome"] != "accepted":
             rejected.append((e, ob))
             continue
         vlib.read_obs(ob)
         if ob["reader"] == "ok":
-            designs.append(design_record(e, ob, maxdepth_of(e), clk))
+            designs.append(design_record(e, ob, maxdepth_of(e), clk, BUDGET.get(tier, 4000)))
         else:
             unread.append((e, ob))
     for e, ob in rejected:
@@ -100,6 +107,7 @@ def run(prop, tier, ents, maxdepth_of, scratch, timeout, level="model_checking",
             payload["how_to"] = f"./check {prop} --replay <this file>"
         V.violation(key, payload)
     nontrivial = sum(1 for k, v in stats.items() if v[0] >= 2 and v[1] >= 2)
+    truncated = sorted(k for k, v in stats.items() if v[0] >= BUDGET.get(tier, 4000))
     samples = []
     for d in designs[:: max(1, len(designs) // 3)][:3]:
         samples.append({"id": d["id"], "family": by_name[d["id"]]["family"], "source_py": ADL.to_python(by_name[d["id"]]),
@@ -109,8 +117,9 @@ def run(prop, tier, ents, maxdepth_of, scratch, timeout, level="model_checking",
            "evaluations": gen, "distinct_nontrivial": nontrivial,
            "rule": rule or "a design counts as non-trivial when its product has >= 2 explored states and its outputs take >= 2 distinct valuations (counted by TLC registers per design)",
            "samples": samples, "compile_s": round(t_compile, 1),
-           "families": sorted({e["family"].split("_")[0] for e in ents}),
-           "exhaustive": True}
+           "families": sorted({re.split(r"[_:(-]", e["family"])[0] for e in ents})[:40],
+           "truncated_designs": len(truncated), "budget_transitions_per_design": BUDGET.get(tier, 4000),
+           "exhaustive": len(truncated) == 0}
     cov.update(extra_cov or {})
     if not finish:
         return V, cov
